@@ -80,6 +80,12 @@ def reachable(db: str, roots: list[str]) -> dict:
                 if j is None:
                     continue
                 R["job"].add(ident)
+                # the job's own task, also when the job never got a call node (still running
+                # when its execution failed or was killed)
+                if j["task_hash"]:
+                    R["task"].add(j["task_hash"])
+                    if not j["call_hash"]:
+                        R.setdefault("_unfinished", set()).add(ident)
                 for c in by_parent.get(ident, []):
                     stack.append(("job", c["id"]))
                 if j["call_hash"]:
@@ -233,6 +239,8 @@ class C23(EngineACheck):
                 R = reachable(db_a, roots)
                 pk = {"execution": "id", "job": "id", "call_node": "call_hash",
                       "value": "value_hash", "task": "hash"}
+                if R.pop("_unfinished", None):
+                    out.probe("unfinished_jobs_transferred")
                 for t, ids in R.items():
                     have = {dict(r)[pk[t]] for r in b[t]}
                     missing = ids - have - ({None} if t == "task" else set())
@@ -251,6 +259,7 @@ class C23(EngineACheck):
                 # the call graph and stay behind).
                 b = dump(db_b)
                 R = reachable(db_a, exec_ids)
+                R.pop("_unfinished", None)
 
                 def attached(d):
                     sel = {}
@@ -302,6 +311,7 @@ class C23(EngineACheck):
                     n1 = self.sync(db_b, db_a, new_execs)
                     a2 = dump(db_a)
                     R = reachable(db_b, new_execs)
+                    R.pop("_unfinished", None)
                     pk = {"execution": "id", "job": "id", "call_node": "call_hash",
                           "value": "value_hash", "task": "hash"}
                     for t, ids in R.items():
